@@ -86,6 +86,14 @@ CHECKS["C09"] = dict(
          "input under the three encodings and back-translating characters vs their dots images.",
     design="4/C09", technique="Coq proof over expressions regenerated from the C source (finite sweeps lifted) + differential runs under the three encodings")
 
+CHECKS["C10"] = dict(
+    text="Machine-checked proof (Coq) on the F engine: ANY observer state of any type threaded through and updated at the emissions - the "
+         "cursor bookkeeping of for_updatePositions being one instance - leaves cells, positions, consumed length and rule trace "
+         "unchanged, and the regenerated emission guard mentions lengths and positions only. Tied to the code by running every case "
+         "under all 32 presence patterns of the five optional arguments in both directions plus the wrapper functions and comparing "
+         "return value, lengths and output.",
+    design="4/C10", technique="Coq non-interference proof (observer threading) + exhaustive presence-pattern differential runs")
+
 PENDING = {}
 
 
